@@ -81,6 +81,18 @@ INFO = {
     "C26-a2": ("C26", "the memo serializer no longer clears visited_edges per memo when flattening dependencies",
                "two memos of one persisted function that reach the same non-persisted helper at depth >= 2; serialize, restore, write to the helper's input, fetch the second memo",
                ["C26"]),
+    "C01-a3": ("C01", "tracked_struct::update assigns the new durability before comparing it: fields are not restamped when the creator became less durable",
+               "a struct-creating function on a HIGH/MEDIUM input, the input re-written with LOW durability and a value that leaves the tracked field equal, then a LOW write that changes it: a reader keyed by the struct stays stale",
+               ["C01"]),
+    "C05-a3": ("C05", "record_use moves from fetch into the cold path: hot hits no longer refresh recency or enter the recency list",
+               "a result requested again in the revision it was verified in (or shallow-verified by durability) before an eviction point; re-enabling eviction within one revision",
+               ["C05"]),
+    "C13-a2": ("C13", "a cycle_result head stops iterating after one pass (metadata convergence ignored for fixed values)",
+               "a fallback cycle whose closing edge depends on an input read by the entry member before it calls the other; a write then breaks the cycle and the other member keeps a dependency-free memo",
+               ["C13"]),
+    "C15-a2": ("C15", "verify_memo's durability shortcut marks the memo verified before checking that it is still provisional",
+               "converge -> diverge (iteration-limit panic) -> converge, entered through an ordinary function that depends on the head: the stale poison is re-stamped and answers PropagatedPanic",
+               ["C15"]),
 }
 
 
